@@ -390,7 +390,9 @@ def c02_case(case, R):
         if bad:
             m = model.mem
             o = ref0.offset
-            if m[o + 1] == 0xFF and len(new) >= 255 and bytes(m[o + 2:o + 4]) != bytes([len(new) >> 8, len(new) & 255]):
+            lf = ref0.free[1:4]           # addresses of the length field (reserved bytes are not part of it)
+            if (len(lf) == 3 and m[lf[0]] == 0xFF and len(new) >= 255
+                    and (m[lf[1]], m[lf[2]]) != (len(new) >> 8, len(new) & 255)):
                 mech = "len3-partially-written"
             elif ref.status == "ndef" and ref.length == len(new):
                 mech = "new-length-before-data"
@@ -401,7 +403,7 @@ def c02_case(case, R):
             wit = dict(case, k=k)
             R.violation("t1t/cut/mixed/%s/%s" % (mech, mem),
                         "cut after %d of %d state changing commands (NDEF TLV at %d, old %d, new %d octets): %s; "
-                        "TLV header bytes on the tag: %s" % (k, n, o, len(old), len(new), bad, bytes(m[o:o + 4]).hex()), wit)
+                        "TLV header bytes on the tag: %s" % (k, n, o, len(old), len(new), bad, bytes(m[a] for a in ref0.free[:4]).hex()), wit)
 
 
 # ===================================================================================================
